@@ -149,6 +149,7 @@ def run(prop, args, seed, t0):
         results = pool.map(_worker, jobs, chunksize=1)
     # ---- classify ---------------------------------------------------------------------------
     violations, undecided, problems = [], [], []
+    bounded_runs, early_violation_lines = [], []
     n_obl = n_dis = n_cover = 0
     per_obl = []
     for r in results:
@@ -156,7 +157,22 @@ def run(prop, args, seed, t0):
             problems.append(f"unit {r['unit']} crashed: {r['reason'][-1500:]}")
             continue
         if r["status"] == "out-of-reach":
-            undecided.append(f"unit {r['unit']} out of reach: {r['reason']}")
+            fb = UNITS[r["unit"]].fallback
+            found = None
+            if fb is not None:
+                # bounded native stand-in (labelled bounded, never counted as proved): only a *found* failing input counts
+                res = native("replay_native.py", {"mirror": fb["mirror"], "model": {}, "extra": dict(fb, bounded=True)})
+                bounded_runs.append({"unit": r["unit"], "mirror": fb["mirror"], "result": res})
+                if res.get("confirmed") is True:
+                    found = res
+            if found is not None:
+                os.makedirs(os.path.join(HERE, "replay", prop), exist_ok=True)
+                fname = os.path.join(HERE, "replay", prop, _safe(r["unit"] + ".bounded") + ".json")
+                with open(fname, "w", encoding="utf8") as f:
+                    json.dump({"property": prop, "unit": r["unit"], "out_of_reach": r["reason"], "bounded_standin": fb, "native_request": {"mirror": fb["mirror"], "model": {}, "extra": dict(fb, bounded=True)}, "native_result": found}, f, indent=1, default=str)
+                early_violation_lines.append(f"VIOLATION property={prop} replay={fname}")
+            else:
+                undecided.append(f"unit {r['unit']} out of reach: {r['reason']}" + (" (bounded stand-in found no failing input)" if fb else ""))
             continue
         if not r["obligations"]:
             problems.append(f"unit {r['unit']} generated zero obligations")
@@ -183,7 +199,7 @@ def run(prop, args, seed, t0):
                 undecided.append(f"obligation {o['name']}: {o['verdict']}")
     # ---- replay failed top-level obligations ------------------------------------------------
     os.makedirs(os.path.join(HERE, "replay", prop), exist_ok=True)
-    violation_lines = []
+    violation_lines = list(early_violation_lines)
     confirmed_families = set()
     for o in violations:
         if family(o["name"]) in confirmed_families:
